@@ -62,6 +62,9 @@ def gen_value(rng, counts) -> Val:
     if k == "string":
         n = rng.choice([0, 1, 5, 40, 0x3FF, 0x400]) if not big else rng.choice([0x400, 0x401, 0x800, 0x1200])
         s = "".join(rng.choice(KEYCHARS) for _ in range(n))
+        if n and rng.random() < 0.12:
+            # code units that generic "utf-16" decoders take for a byte order mark are ordinary characters here
+            s = rng.choice(["\ufeff", "\ufffe", "\ufeff\ufeff"]) + s[1:]
         fo = big or (rng.random() < 0.05 and counts["files"] < 40)
         counts["files"] += int(fo)
         return Val(k, s, file_object=fo)
